@@ -24,7 +24,7 @@ import (
 )
 
 type c13Case struct {
-	K  string `json:"k"`            // int|strint|bool|strbool|num|strnum|mxint|mxbool|mxnum
+	K  string `json:"k"`            // int|strint|bool|strbool|num|strnum|floatint|mxint|mxbool|mxnum
 	Z  string `json:"z,omitempty"`  // decimal int64
 	S  string `json:"s,omitempty"`  // hex of a string
 	B  bool   `json:"b,omitempty"`  //
@@ -162,6 +162,9 @@ func (c13) Run(raw json.RawMessage) Result {
 		bk, bs := c13OutZ(types.ConvertGoType(s, types.Integer))
 		o.S, o.Back = s, bs
 		coq = coqlit.App("CStrInt", coqlit.Bytes(s), bk)
+		if len(strings.TrimSpace(s)) >= 19 {
+			class += "/19+digits"
+		}
 	case "bool":
 		v, err := types.ConvertGoType(c.B, types.String)
 		s, _ := v.(string)
@@ -210,6 +213,11 @@ func (c13) Run(raw json.RawMessage) Result {
 		o.S, o.Back = s, bs
 		arg := c13ParseArg(s)
 		coq = coqlit.App("CStrNum", coqlit.Bytes(s), bk, coqlit.Bytes(arg), c13LibParse(arg))
+	case "floatint":
+		f := fl()
+		bk, bs := c13OutZ(types.ConvertGoType(f, types.Integer))
+		o.S, o.Back = strconv.FormatFloat(f, 'g', -1, 64), bs
+		coq = coqlit.App("CFloatInt", coqlit.N(math.Float64bits(f)), bk)
 	case "mxint":
 		n := z()
 		text := strconv.Itoa(int(n))
@@ -301,6 +309,13 @@ var c13Floats = []float64{
 	9007199254740991, 9007199254740992, 9007199254740994, 4503599627370496.5, 4503599627370495.5, 0.5, 0.25, 1.5, 123456789.123456789,
 	5e-324, 1e-323, 2.5e-320, 3.141592653589793, 2.718281828459045, 1.7976931348623157e308, 8.98846567431158e307, 1.0000000000000002, 0.9999999999999999,
 	math.Inf(1), math.Inf(-1), math.NaN(),
+	// magnitudes at and beyond 2^63 / 2^64
+	9223372036854775807, 9223372036854775808, -9223372036854775808, 9223372036854777856, -9223372036854777856, 1e19, -1e19,
+	18446744073709551616, 1.8446744073709552e19, 1e20, 1e30, -1e300, 9.223372036854775e18, -9.223372036854775e18,
+	// more subnormals and 17-digit decimals
+	math.Float64frombits(1), math.Float64frombits(2), math.Float64frombits(1<<51), math.Float64frombits(1<<52 - 1), math.Float64frombits(1 << 52),
+	math.Float64frombits(1<<63 | 1), math.Float64frombits(1<<63 | (1<<52 - 1)),
+	0.1 + 0.2, 0.1 + 0.7, 1.1 * 1.1, 5e-324 * 3, 2.2250738585072011e-308, 1.2345678901234567, 12345678.901234567, 0.000012345678901234567, 8.41e21, 9.5367431640625e-07,
 }
 
 func c13RandFloat(r *rand.Rand) float64 {
@@ -363,7 +378,18 @@ func (c13) Gen(seed int64, tier string, emit func(any)) {
 		"4611686018427387904", "4611686018427387905", "9007199254740992", "9007199254740994", "9007199254740995"} {
 		emit(c13Case{K: "strint", S: hx(s)})
 	}
+	// magnitudes at and beyond int64 (outside the property's bound; int(f) as amd64 defines it),
+	// and digit strings that overflow binary64
+	for _, s := range []string{"9223372036854775295", "9223372036854775296", "9223372036854775807", "9223372036854775808", "-9223372036854775808", "-9223372036854775809",
+		"9223372036854776832", "18446744073709551615", "18446744073709551616", "-18446744073709551616", "10000000000000000000", "100000000000000000000000000000",
+		"179769313486231570814527423731704356798070567525844996598917476803157260780028538760589558632766878171540458953514382464234321326889464182768467546703537516986049910576551282076245490090389328944075868508455133942304583236903222948165808559332123348274797826204144723168738177180919299881250404026184124858368",
+		"179769313486231580793728971405303415079934132710037826936173778980444968292764750946649017977587207096330286416692887910946555547851940402630657488671505820681908902000708383676273854845817711531764475730270069855571366959622842914819860834936475292719074168444365510704342711559699508093042880177904174497791",
+		"179769313486231580793728971405303415079934132710037826936173778980444968292764750946649017977587207096330286416692887910946555547851940402630657488671505820681908902000708383676273854845817711531764475730270069855571366959622842914819860834936475292719074168444365510704342711559699508093042880177904174497792",
+		"1" + strings.Repeat("0", 400), "-1" + strings.Repeat("0", 309)} {
+		emit(c13Case{K: "strint", S: hx(s)})
+	}
 	for _, f := range c13Floats {
+		emit(c13Case{K: "floatint", F: fb(f)})
 		emit(c13Case{K: "num", F: fb(f)})
 		emit(c13Case{K: "num", F: fb(f), Ty: "float"})
 		if !math.IsInf(f, 0) && !math.IsNaN(f) {
@@ -402,6 +428,20 @@ func (c13) Gen(seed int64, tier string, emit func(any)) {
 		emit(c13Case{K: "num", F: fb(f), Ty: []string{"num", "float"}[i%2]})
 		if !math.IsInf(f, 0) && !math.IsNaN(f) {
 			emit(c13Case{K: "strnum", S: hx(c13Spaces[r.Intn(len(c13Spaces))] + strconv.FormatFloat(f, 'f', -1, 64) + c13Spaces[r.Intn(len(c13Spaces))])})
+		}
+		if i%2 == 0 {
+			emit(c13Case{K: "floatint", F: fb(c13RandFloat(r))})
+		}
+		if i%5 == 0 { // digit strings of 19..40 digits: beyond int64, int(f) = -2^63 on amd64
+			d := make([]byte, 19+r.Intn(22))
+			for j := range d {
+				d[j] = byte('0' + r.Intn(10))
+			}
+			if d[0] == '0' {
+				d[0] = '9'
+			}
+			sg := []string{"", "-", "+"}[r.Intn(3)]
+			emit(c13Case{K: "strint", S: hx(sg + string(d))})
 		}
 		if i%3 == 0 {
 			t := r.Intn(4)
